@@ -6,3 +6,12 @@ package trie
 // Missing (read-only accessor for the triesim harness: lets it tell "queue empty"
 // from "Missing throttled by the per-depth limit").
 func (s *Sync) VerifQueueLen() int { return s.queue.Size() }
+
+// VerifFetches returns a copy of the per-depth in-flight counters.
+func (s *Sync) VerifFetches() map[int]int {
+	out := make(map[int]int, len(s.fetches))
+	for k, v := range s.fetches {
+		out[k] = v
+	}
+	return out
+}
